@@ -302,6 +302,10 @@ def depth_cases_for(L):
                     elif k == "mapik": pre += [0xBF]; post = [0x01, 0xFF] + post
                     else: pre += [0xBF, 0x01]; post = [0xFF] + post
                 out.append(pre + list(rng.choice(leaves)) + post)
+        # a payload far larger than the thread's stack: stack use must be proportional to L, not to sizes
+        big = 300 * 1024
+        out.append([0x5A] + list(big.to_bytes(4, "big")) + [0x41] * big)
+        out.append([0xC1, 0x81, 0x7A][: min(3, L + 1)][-1:] + [] if False else ([0x81] if L >= 1 else []) + [0x7A] + list(big.to_bytes(4, "big")) + [0x61] * big)
         # truncated deep inputs (error path unwinds a full stack)
         for k in ("tag", "arri", "mapiv"):
             out.append(nest(k, L, (0x01,))[:L + 0])
